@@ -18,7 +18,8 @@ import PorepyVerif.Common.Wire
 import PorepyVerif.C09.Model
 open Lean PV PorepyVerif.C09
 
-abbrev St := Option (Params × TM)
+/-- parameters, state, and (bookkeeping for the margins only) whether `dt` is known to be a copy of `dt_min` -/
+abbrev St := Option (Params × TM × Bool)
 
 def stateFields (s : TM) : List (String × Json) :=
   [("time", ofRat s.time), ("dt", ofRat s.dt), ("ti", ofInt s.timeIndex), ("recomp", ofNat s.recompNum),
@@ -51,7 +52,7 @@ def correctMargins (p : Params) (s : TM) : List Rat :=
 def finalMargins (p : Params) (s : TM) : List Rat :=
   if s.time > p.timeFinal then [] else [mClose p.rtol p.atol s.time p.timeFinal]
 
-def computeMargins (p : Params) (s : TM) (iters : Option Int) (recompute : Bool) : List Rat :=
+def computeMargins (p : Params) (s : TM) (dtIsMin : Bool) (iters : Option Int) (recompute : Bool) : List Rat :=
   let mf := if recompute then [] else finalMargins p s
   if (!recompute && finalTimeReached p s) || p.constantDt then mf
   else if !recompute then
@@ -59,7 +60,7 @@ def computeMargins (p : Params) (s : TM) (iters : Option Int) (recompute : Bool)
     | none => mf
     | some it => mf ++ correctMargins p (adaptIter p s it)
   else if (s.recompNum : Int) < p.recompMax then
-    if s.dt = p.dtMin then []
+    if s.dt = p.dtMin then (if dtIsMin then [] else [0])  -- equal by coincidence of arithmetic: knife edge
     else mCmp s.dt p.dtMin :: correctMargins p
       { s with time := s.time - s.dt, dt := s.dt * p.recompFactor,
                idx := if s.aboutToHit then s.idx - 1 else s.idx }
@@ -77,6 +78,17 @@ def initMargins (p : Params) (dflt : Bool) : List Rat :=
   else
     [mCmp (p.dtMin * p.overRelax) p.dtMax, mCmp (p.dtMax * p.underRelax) p.dtMin]
       ++ (if dflt then [mCmp p.dtInit p.dtMax, mCmp p.dtInit p.dtMin] else [])
+
+/-- after a `compute` call: is the new `dt` a copy of `dt_min` (assigned by the dt_min / dt_max clamps or kept)? -/
+def dtIsMinAfter (p : Params) (s s' : TM) (old : Bool) (iters : Option Int) (recompute : Bool) : Bool :=
+  if s'.dt = s.dt && s'.time = s.time && s'.recompNum = s.recompNum && s'.idx = s.idx then old else
+  let adapted := if recompute then s.dt * p.recompFactor else
+    match iters with
+    | some it => (adaptIter p s it).dt
+    | none => s.dt
+  let clamped := clampMax p (clampMin p adapted)
+  s'.dt = clamped && clamped = p.dtMin &&
+    (adapted < p.dtMin || adapted > p.dtMax || (adapted = s.dt && old))
 
 def minMargin : List Rat → Json
   | [] => Json.null
@@ -108,40 +120,40 @@ def step (st : St) (j : Json) : R (St × Json) := do
       rtol := (← fRat j "rtol"), atol := (← fRat j "atol") }
     let m := minMargin (initMargins p mm.isNone)
     if validate p then
-      pure (some (p, init p), obj ([("dt_min", ofRat dtMin), ("dt_max", ofRat dtMax)] ++ stateFields (init p) ++ [("m", m)]))
+      pure (some (p, init p, decide (p.dtInit = p.dtMin)), obj ([("dt_min", ofRat dtMin), ("dt_max", ofRat dtMax)] ++ stateFields (init p) ++ [("m", m)]))
     else pure (none, obj [("err", Json.str "ValueError"), ("m", m)])
   | "inc_time" =>
     match st with
     | none => throw "no time manager"
-    | some (p, s) => pure (some (p, increaseTime s), obj (stateFields (increaseTime s)))
+    | some (p, s, f) => pure (some (p, increaseTime s, f), obj (stateFields (increaseTime s)))
   | "inc_index" =>
     match st with
     | none => throw "no time manager"
-    | some (p, s) => pure (some (p, increaseTimeIndex s), obj (stateFields (increaseTimeIndex s)))
+    | some (p, s, f) => pure (some (p, increaseTimeIndex s, f), obj (stateFields (increaseTimeIndex s)))
   | "final" =>
     match st with
     | none => throw "no time manager"
-    | some (p, s) => pure (st, obj [("final", Json.bool (finalTimeReached p s)), ("m", minMargin (finalMargins p s))])
+    | some (p, s, _) => pure (st, obj [("final", Json.bool (finalTimeReached p s)), ("m", minMargin (finalMargins p s))])
   | "compute" =>
     match st with
     | none => throw "no time manager"
-    | some (p, s) =>
+    | some (p, s, f) =>
       let iters ← field j "iterations" >>= jOpt jInt
       let rc ← fBool j "recompute"
-      let m := minMargin (computeMargins p s iters rc)
+      let m := minMargin (computeMargins p s f iters rc)
       let (s', r) := computeTimeStep p s iters rc
       let head := match r with
         | .ok ret => [("ret", ofOpt ofRat ret)]
         | .err e => [("err", Json.str (errName e))]
-      pure (some (p, s'), obj (head ++ stateFields s' ++ [("m", m)]))
+      pure (some (p, s', dtIsMinAfter p s s' f iters rc), obj (head ++ stateFields s' ++ [("m", m)]))
   | "loop" =>
     match st with
     | none => throw "no time manager"
-    | some (p, s) =>
+    | some (p, s, _) =>
       let outs ← fInts j "outcomes"
       let os := outs.map (fun i => if i < 0 then Outcome.failed else Outcome.converged i)
       let r := runFrom p { tm := s, accepted := [s.time], status := statusOf p s } os
-      pure (some (p, r.tm), obj ([("status", Json.str (statusName r.status)),
+      pure (some (p, r.tm, false), obj ([("status", Json.str (statusName r.status)),
         ("accepted", ofRats r.accepted.reverse)] ++ stateFields r.tm))
   | _ => throw s!"unknown op {op}"
 
